@@ -630,6 +630,22 @@ func carriers(nFull, nRed int, deadline time.Time) {
 					}
 				}
 			}
+			for _, pos := range smPositions {
+				for _, network := range []bool{false, true} {
+					class, detail, unspec := judgeStringified(tree, pos, network)
+					nm++
+					if unspec {
+						rep.Unspec(1)
+					}
+					if class != "" {
+						conf := fmt.Sprintf("carrier=stringified position=%s network=%v", pos, network)
+						rep.FailLazy(class, tree.Count()*1000+len(detail), func() engine.Failure {
+							return engine.Failure{Detail: detail + " [" + conf + "] doc=" + clipS(tree.String(), 200),
+								Case: CarCase{"carrier", c.Tape(), g.name, g.n, clipS(tree.String(), 300), conf}}
+						})
+					}
+				}
+			}
 			atomic.AddInt64(&evals, int64(len(carCfgs)+nm))
 		})
 		if !st.Complete {
@@ -801,6 +817,18 @@ func replay() {
 						rep.Fail(engine.Failure{Class: class, Detail: detail, Case: c}, 0)
 					}
 					rep.Eval(1)
+				}
+				if cfg.carrier == "raw" && cfg.position == "root" && !cfg.network { // once per replay round
+					for _, pos := range smPositions {
+						for _, network := range []bool{false, true} {
+							if fmt.Sprintf("carrier=stringified position=%s network=%v", pos, network) == c.Conf {
+								if class, detail, _ := judgeStringified(tree, pos, network); class != "" {
+									rep.Fail(engine.Failure{Class: class, Detail: detail, Case: c}, 0)
+								}
+								rep.Eval(1)
+							}
+						}
+					}
 				}
 				for _, x := range extraCarx {
 					if carxString(cfg, x) == c.Conf {
